@@ -14,7 +14,7 @@ from harness.util import rel_close
 RULE = ("mixtures of 1..6 distinct substances (pool of real formulas + random 1..3-element formulas over the live "
         "periodic table) with positive proportions over many orders of magnitude (mostly [1e-3,1e3], traces down to 1e-12, bulk up to 1e6; scale factors 1e-9 … 1e9), every norm_type (NUMBER, "
         "NUMBER_FRACTION, MASS_FRACTION), natural / most-abundant, built from a dict or from the '<..>' string (proportions written as plain decimals, integers, 'd.' and e/E notation); components include bare nucleons and fully ionised species; "
-        "plus Substance composites (elements with counts, NUMBER mode); the avg row always and the components= selection on 40 % of the cases (impl vs model; selected rows must keep their values); scaling and both dualities on 30 % (quick) / all (thorough) of the cases; plus the same mixture as expression string and as dict in both isotope modes alternately; number/mass densities attached to 30 % of the number-mode materials; a table of selected components and str() before the full table on half of the selections; histories (material + bare Substance with its own proportion, new or already present; component masses converted in place by the caller, then add(); failing add() calls: if the call raises the material must read as before; a + b, add() on the sum, k * sum, add() on an operand; every live material re-read after every step); corpus first. non-trivial = at least two "
+        "plus Substance composites (elements with counts, NUMBER mode); the avg row always and the components= selection on 40 % of the cases (impl vs model; selected rows must keep their values); scaling and both dualities on 30 % (quick) / all (thorough) of the cases; plus the same mixture as expression string and as dict in both isotope modes alternately; number/mass densities attached to 30 % of the number-mode materials; a table of selected components and str() before the full table on half of the selections; histories (k * material with k sometimes exactly 1 / 1.0, add() on the product, source re-read; material + bare Substance with its own proportion, new or already present; component masses converted in place by the caller, then add(); failing add() calls: if the call raises the material must read as before; a + b, add() on the sum, k * sum, add() on an operand; every live material re-read after every step); corpus first. non-trivial = at least two "
         "components with different masses; distinct = canonical JSON of (kind, mode, natural, components)")
 ASSUMPTIONS = [
     "proportions and component masses are positive finite floats (the property's quantifier); empty composites return None and are skipped",
@@ -412,6 +412,9 @@ def history_stream(ctx, nat, allsym, n):
         ops = [["new", fr(A)], ["new", fr(B)], ["plus", 0, 1], ["add", 2, subs[3], frac(padd)],
                ["mul", 2, frac(k)], ["add", 1, subs[4], frac(padd)], ["plus", 0, 1], ["pluselem", 0, subs[4], frac(padd)],
                ["pluselem", 0, subs[0], frac(padd)]]
+        k1 = ctx.rng.choice([1, 1.0, 1, 1.0, 3, 0.25])          # the neutral factor matters: the product is still a NEW material
+        ops += [["mul", 0, frac(k1)], ["add", 7, subs[2], frac(padd)], ["add", 7, subs[0], frac(padd)]]
+        replay["k1"] = k1
         r = ctx.driver.ask({"k": "ops", "ops": ops})
         if "ok" not in r:
             ctx.disagreement("history", replay, "driver error %s" % r)
@@ -445,6 +448,12 @@ def history_stream(ctx, nat, allsym, n):
             live.append(live[0] + Substance(subs[0], proportion=padd, natural=natural))
             for idx, obj in enumerate(live):
                 entries.append(("plus-present-substance:#%d" % idx, replay, snaps[8][idx], mode, snapshot(obj, mode)))
+            # a product (also with the neutral factor 1 / 1.0) shares no state with its operand: both are used afterwards
+            live.append(k1 * live[0])
+            live[7].add(subs[2], padd)
+            live[7].add(subs[0], padd)
+            for idx, obj in enumerate(live):
+                entries.append(("add-on-product(k=%r):#%d" % (k1, idx), replay, snaps[11][idx], mode, snapshot(obj, mode)))
             # the caller converts handed-out mass quantities in place, then the material is re-normalised by add()
             d = Material({f: p for f, p in A}, natural=natural, norm_type=nt)
             cells = d.data_components(quantity=True)
